@@ -20,7 +20,7 @@ fn level(t: Tier) -> Level {
         rule: if t.thorough() { "every script of length <= 5 over {refuse, accept+close, accept+frames(X_k)+close, accept+partial line+reset, accept+junk bytes+close, accept+frames+connection healthy for 6 s (virtual monotonic time)+close, accept+long non-UTF-8 junk+close} (19608 scripts) followed by a healthy connection delivering frames of Y and staying open; for scripts of length 1 the partial line runs over every prefix length 1..27 of a 28-digit frame; the length-1 scripts are repeated against the real release CLI with real 5 s pauses; distinct_nontrivial = distinct (script, final key set) outcomes" } else { "every script of length <= 4 over {refuse, accept+close, accept+frames(X_k)+close, accept+partial line+reset, accept+junk bytes+close, accept+frames+connection healthy for 6 s (virtual monotonic time)+close, accept+long non-UTF-8 junk+close} (2801 scripts) followed by a healthy connection delivering frames of Y and staying open; for scripts of length 1 the partial line runs over every prefix length 1..27 of a 28-digit frame; distinct_nontrivial = distinct (script, final key set) outcomes" },
         assumptions: vec![
             "the pause after a failed attempt is observed through the interposed clock_nanosleep (requested duration recorded, the sleeper blocks on a gate the script releases): exactly one request of 5 s +- 1 s per refused attempt".into(),
-            "final table oracle: equal to the table the file source produces from the same complete lines in the same order (a partial last line may or may not have reached the reader before the reset: both readings admitted)".into(),
+            "final table oracle: equal (ages included) to the table the file source produces step by step from the same complete lines, with 5 s of silence after every scripted step and t s more after a healthy-for-t-s step - the faked wall clock advances with the virtual time of released pauses (a partial last line may or may not have reached the reader before the reset: both readings admitted)".into(),
             "elapsed time inside the TCP loop is virtual: CLOCK_MONOTONIC is interposed with an offset that a released pause advances by its requested duration and a 'healthy for 6 s' step advances by 6 s".into(),
             "real network timing is not explored: the peer is scripted at the granularity connect / accept / send / close / reset".into(),
         ],
@@ -32,7 +32,7 @@ fn gate(p: &Partial, t: Tier) -> Result<(), String> {
     super::need(p, "script", 2000)?;
     super::need(p, "pause-checked", 300)?;
     super::need(p, "partial-variant", 27)?;
-    super::need(p, "mid-line-pause", 5)?;
+    super::need(p, "mid-line-pause", 9)?;
     super::need(p, "script-with-options", 200)?;
     super::need(p, "earlier-aircraft-kept", 100)?;
     Ok(())
@@ -98,50 +98,49 @@ fn healthy() -> Vec<u8> {
     frames_of(Y)
 }
 
-/// expected tables from the file source: (with partial lines, without partial lines)
+/// expected tables from the file source, step by step, with the virtual time each step takes:
+/// (with partial lines, without partial lines). Every scripted step ends with a 5 s pause (the refused
+/// attempt after it); a "healthy for t s" step lasts t s more.
 fn expected(script: &[Step], opts: &[&str]) -> (Vec<Snap>, Vec<Snap>) {
     let cfg = Cfg::new(opts);
-    let mut with = vec![];
-    let mut without = vec![];
-    for s in script {
-        match s {
-            Step::AcceptSplitLine(h, _, t) => {
-                for v in [&mut with, &mut without] {
-                    v.extend_from_slice(h);
-                    v.extend_from_slice(t);
-                    if !t.ends_with(b"\n") {
-                        v.push(b'\n');
-                    }
-                }
-            }
-            Step::AcceptSend(b) | Step::AcceptJunk(b) | Step::AcceptSendHold(b, _) => {
-                for v in [&mut with, &mut without] {
-                    v.extend_from_slice(b);
-                    if !b.ends_with(b"\n") {
-                        v.push(b'\n');
-                    }
-                }
-            }
-            Step::AcceptPartialReset(b) => {
-                with.extend_from_slice(b);
-                with.push(b'\n');
-                // without the partial tail: everything up to the last newline
-                if let Some(p) = b.iter().rposition(|c| *c == b'\n') {
-                    without.extend_from_slice(&b[..=p]);
-                }
-            }
-            _ => {}
-        }
-    }
-    with.extend_from_slice(&healthy());
-    without.extend_from_slice(&healthy());
-    let run = |content: &[u8]| {
-        let t = new_table();
+    let run = |pre: &[Snap], content: &[u8]| {
+        let t = crate::snap::restore(pre);
         let o = run_file(&cfg, content, &t);
         assert!(o.is_ok(), "file-source reference run failed: {o:?}");
         snapshot(&t)
     };
-    (run(&with), run(&without))
+    let mut with: Vec<Snap> = vec![];
+    let mut without: Vec<Snap> = vec![];
+    for s in script {
+        let mut hold = 0i64;
+        match s {
+            Step::AcceptSplitLine(h, _, t) => {
+                let mut b = h.clone();
+                b.extend_from_slice(t);
+                with = run(&with, &b);
+                without = run(&without, &b);
+            }
+            Step::AcceptSend(b) | Step::AcceptJunk(b) => {
+                with = run(&with, b);
+                without = run(&without, b);
+            }
+            Step::AcceptSendHold(b, t) => {
+                with = run(&with, b);
+                without = run(&without, b);
+                hold = *t;
+            }
+            Step::AcceptPartialReset(b) => {
+                with = run(&with, b);
+                if let Some(p) = b.iter().rposition(|c| *c == b'\n') {
+                    without = run(&without, &b[..=p]);
+                }
+            }
+            _ => {}
+        }
+        crate::snap::tick_all(&mut with, (5 + hold) * 1000);
+        crate::snap::tick_all(&mut without, (5 + hold) * 1000);
+    }
+    (run(&with, &healthy()), run(&without, &healthy()))
 }
 
 /// a peer that really pauses in the middle of a line (split after `cut` bytes of the stream of X_0)
@@ -198,7 +197,18 @@ fn eval_steps_opts(ctx: &mut Ctx, script: Vec<Step>, case_json: Value, partial_l
     }
     // (iii)/(iv) final table == file source of the same lines
     let (with, without) = expected(&script, opts);
-    let got = &rep.final_table;
+    // observed ages are relative to T0; the script ended `elapsed_ms` of virtual time later
+    let mut got_v = rep.final_table.clone();
+    crate::snap::tick_all(&mut got_v, rep.elapsed_ms);
+    for r in got_v.iter_mut() {
+        // Plane::new() stamps of never-received CPR slots are creation times: not part of what is shown
+        r.cpr_age = [0, 0];
+    }
+    let (mut with, mut without) = (with, without);
+    for r in with.iter_mut().chain(without.iter_mut()) {
+        r.cpr_age = [0, 0];
+    }
+    let got = &got_v;
     ctx.outcome(&(syms, got.iter().map(|r| r.key).collect::<Vec<_>>()));
     if !got.iter().any(|r| r.key == Y) {
         ctx.violation("C18/healthy-not-decoded", &key, || format!("script {key}: after the healthy connection Y is not in the table ({} rows)", got.len()), case);
@@ -339,6 +349,14 @@ fn run(ctx: &mut Ctx) {
             eval_steps(ctx, split_script(cut, ms), json!({"split": cut, "pause_ms": ms}), 0);
         }
     }
+    // the same with short refresh intervals and a pause longer than the default one (-u 3)
+    for (oi, (opts, cut, ms)) in [(&["-u", "1"][..], 40usize, 1600u64), (&["-u", "0"][..], 11, 1600), (&["-u", "1", "-i", ""][..], 60, 2200), (&[][..], 33, 3600)].iter().enumerate() {
+        job += 1;
+        if ctx.mine(job) {
+            ctx.count("mid-line-pause");
+            eval_steps_opts(ctx, split_script(*cut, *ms), json!({"split": cut, "pause_ms": ms, "split_opts": oi}), 0, opts);
+        }
+    }
     if ctx.tier.thorough() {
         if cli::available().is_ok() {
             for sym in 0..5 {
@@ -361,6 +379,11 @@ fn replay(ctx: &mut Ctx, case: &Value) {
     }
     if let Some(cut) = case.get("split").and_then(|x| x.as_u64()) {
         let ms = case.get("pause_ms").and_then(|x| x.as_u64()).unwrap_or(1300);
+        if let Some(oi) = case.get("split_opts").and_then(|x| x.as_u64()) {
+            let all: [&[&str]; 4] = [&["-u", "1"], &["-u", "0"], &["-u", "1", "-i", ""], &[]];
+            eval_steps_opts(ctx, split_script(cut as usize, ms), case.clone(), 0, all[oi as usize % 4]);
+            return;
+        }
         eval_steps(ctx, split_script(cut as usize, ms), case.clone(), 0);
         return;
     }
